@@ -41,10 +41,15 @@ CONTROLS = [
     # parameters: keyword-only / init=False fields drop out of ==, hash and copies
     ("Buggy_KwDropped", "invariant", "EqIsPyEq"),
     ("Buggy_KwDropped_copy", "invariant", "CopyFaithful"),
+    # round 5: "is the keyword mapping hashable?" answered from its type: a read-only view of the
+    # caller's dict (has a __hash__ slot that raises) is kept - the node is unhashable, and it
+    # changes when the caller changes its dict
+    ("Buggy_NominalHashable", "invariant", "BuiltOK"),
+    ("Buggy_NominalHashable_imm", "property", "Immutable"),
 ]
 # the quick tier runs one control per Bug switch (the machine-wide TLC slots are scarce)
 THOROUGH_ONLY = {"Buggy_DropField_dict", "Buggy_StaleHash_eq", "Buggy_ClassMemo_dict",
-                 "Buggy_PickleKeepsHash_dict", "Buggy_KwDropped_copy"}
+                 "Buggy_PickleKeepsHash_dict", "Buggy_KwDropped_copy", "Buggy_NominalHashable_imm"}
 
 
 def _side_runs(tier):
@@ -104,6 +109,8 @@ def signature(v):
         if v.get("via"):
             sig["via"] = sorted(v["via"])
         return sig
+    if clause in ("BuiltHashable", "BuiltAsGiven"):
+        return {"clause": clause, "cls": v.get("cls0", ""), "forms": sorted(v.get("forms", []))}
     return {"clause": clause, "op": v["op"], "cls": v["ci"], "md": v.get("md", "")}
 
 
@@ -194,6 +201,21 @@ def _corruption_control(recs, wd):
         r["trees"].append(t)
         q["tr"] = len(r["trees"])
         bad.append((r, "CopyKeepsFields"))
+    # a node that kept the read-only view of its builder's dict it was given
+    def has_imm(t):
+        return t["t"] == "N" and any(f.get("t") == "M" and f.get("mt") == "imm" for f in t["f"])
+
+    r, n = find(lambda r, n, e: e["ev"]["op"] == "New" and e["ev"]["md"] == "" and e["r"]["k"] == "new"
+                and has_imm(r["trees"][e["r"]["proj"][-1]["tr"] - 1]))
+    if r:
+        q = r["evs"][n]["r"]["proj"][-1]
+        t = copy.deepcopy(r["trees"][q["tr"] - 1])
+        for f in t["f"]:
+            if f.get("t") == "M":
+                f["mt"] = "proxy"
+        r["trees"].append(t)
+        q["tr"] = len(r["trees"])
+        bad.append((r, "BuiltHashable"))
     base = [r["id"] for r, _ in bad]
     for k, (r, _) in enumerate(bad):
         r["id"] = k
@@ -300,7 +322,12 @@ def run(tier, seed, out):
                  "the self alphabet (== / != with ITSELF, hash, dict put / get of itself, copy / "
                  "deepcopy / pickle copy / mappers and the same on the results), the same for 7 single "
                  "objects of user dataclass nodes with a keyword-only field (with / without default, "
-                 "below CommonSubexpression) or a field(init=False) field"
+                 "below CommonSubexpression) or a field(init=False) field; 5 pairs of keyword-argument "
+                 "calls (same contents / one value different / colliding values / the empty mapping / "
+                 "nodes as values, nested in a Sum) whose first member is built from each of 6 forms of "
+                 "Mapping (dict, OrderedDict, ChainMap, a user Mapping class, MappingProxyType over a "
+                 "dict, MappingProxyType over an immutabledict) x every history of length 2 over {the "
+                 "caller mutates what it passed, Hash1, Hash2, Eq12, Eq21, Put1, Get2}"
                  if tier == "quick" else
                  "every unordered pair inside each catalogue family x every history of length 2, every "
                  "near pair x every history of length 3 over the pair alphabet; 24 representative pairs "
@@ -309,8 +336,10 @@ def run(tier, seed, out):
                  "interpreter arrival (4 ways) of every twin pair x 2 operations, every near pair x 1, "
                  "28 representative pairs x 2; every catalogue member alone x every history of length 2 "
                  "over the self alphabet (== / != with itself, hash, dict put / get of itself, copies, "
-                 "mappers, the same on the results), the 21 NaN-holding members x length 3")
-    out.rule = ("TLC enumerates (C01_Gen over the 326-object catalogue in 27 families): " + pairs_txt +
+                 "mappers, the same on the results), the 21 NaN-holding members x length 3; 8 pairs of "
+                 "keyword-argument calls x 6 forms of Mapping for the first member x every history of "
+                 "length 3 over {the caller mutates what it passed, Hash1, Hash2, Eq12, Eq21, Put1, Get2}")
+    out.rule = ("TLC enumerates (C01_Gen over the 328-object catalogue in 27 families): " + pairs_txt +
                 "; plus seeded -simulate random walks of 8 operations from any family pair/triple. "
                 "A case is one history (New events + operations), replayed on fresh objects; "
                 "non-trivial = at least one operation after construction; distinct by canonical JSON "
@@ -329,11 +358,16 @@ def run(tier, seed, out):
                 clss[e["spec"]["cls"]] = clss.get(e["spec"]["cls"], 0) + 1
     out.extra["events_by_operation"] = ops
     out.extra["objects_by_class"] = clss
-    out.extra["sweeps"] = {s: sum(1 for c in cases if c["sweep"] == s) for s in ("pairs", "near", "deep", "deepq", "hier", "xtwin", "xnear", "xdeep", "self", "selfn", "sim")}
+    out.extra["sweeps"] = {s: sum(1 for c in cases if c["sweep"] == s) for s in ("pairs", "near", "deep", "deepq", "hier", "xtwin", "xnear", "xdeep", "self", "selfn", "forms", "sim")}
     out.assumptions += [
         "CPython semantics of ==/hash on tuples, numbers, str, mappings as transcribed in C01_Values.tla",
         "default interpreter mode (__debug__ true); python -O is out of scope as the statement says",
-        "bounded: catalogue of 326 object specifications in 27 families, histories of the stated lengths",
+        "bounded: catalogue of 328 object specifications in 27 families, histories of the stated lengths",
+        "the form in which the keyword mapping of a call is handed to the constructor is an input dimension "
+        "(7 forms of Mapping); a node built here must be hashable (BuiltHashable), hold what it was given up "
+        "to the three documented __post_init__ normalisations (BuiltAsGiven) and stay as it is when the "
+        "caller changes the object it passed (Immutable along Mutate events); a list / set given where the "
+        "class declares a tuple is an ill-typed argument and not generated",
         "a copy (copy.copy / copy.deepcopy / pickle round trip in the same process) that comes to be is "
         "judged: same class, every field present and == the original's (CopyKeepsFields); a pickle that "
         "fails is SKIP (C17)",
